@@ -2,6 +2,7 @@
 # run_negative_controls.sh : every diff under negative_controls/ -> facts of a private scratch copy -> all quick rules; any violation is a false alarm
 cd /verif
 rc=0
+mkdir -p ${TMPDIR:-/tmp}/verif-negctl-scratch
 for d in negative_controls/*.diff; do
   n=$(basename $d .diff)
   out=${TMPDIR:-/tmp}/verif-negctl-$n
